@@ -51,10 +51,13 @@ def build_harness():
     log(f"[build] harness built from /repo working tree in {time.time() - t0:.1f}s")
 
 
-def run_harness(coll, driver, params, out, timeout=600):
+def run_harness(coll, driver, params, out, timeout=None):
     """Runs one driver.  A panic / abort / hang of the code under test is data: the run is repeated
     in journal mode and the call that did not return is appended as an event with out=aborted|timeout."""
     build_harness()
+    if timeout is None:
+        # watchdog for the code under test: a driver normally finishes within seconds
+        timeout = 120 if os.environ.get("VERIF_TIER_EFFECTIVE", "quick") == "quick" else 900
     stats = out + ".stats"
     base = [ITV, coll, driver, "--out", out, "--stats", stats] + [f"{k}={v}" for k, v in params.items()]
 
